@@ -8,7 +8,10 @@ if ! git apply "$P" 2>/dev/null; then
   if ! git apply --3way "$P" 2>/tmp/apply.err; then echo "patch does not apply"; cat /tmp/apply.err; git checkout -- . ; exit 3; fi
   git reset -q
 fi
+# evidence written by a run against a patched tree must not replace the committed evidence
+rm -rf /tmp/evidence.keep; cp -r /verif/evidence /tmp/evidence.keep 2>/dev/null
 cd /verif && ./check "$@"; rc=$?
+rm -rf /verif/evidence; mv /tmp/evidence.keep /verif/evidence 2>/dev/null
 git -C /repo checkout -- . ; git -C /repo clean -fdq src
 echo "check exit=$rc"
 exit $rc
